@@ -188,6 +188,11 @@ def closure(cell):
             except UnitConversionError:
                 # e.g. passing a quantity displayed in a foreign unit into an API: allowed to raise, but not to change it
                 pass
+            except Exception:  # noqa
+                if op[0] != 'pass':
+                    raise
+                # a library call may reject the VALUE (an atmosphere at 100 km, a temperature of 0 K): not this property's business;
+                # what matters is that the quantity handed over is unchanged afterwards
             transitions += 1
             if len(viol) < 20:
                 invariants(q, hist + [op])
